@@ -110,6 +110,7 @@ type Options struct {
 	TailEOF           bool // ReadAt returns io.EOF together with the data when it reaches the end of the file (as os.File does)
 	Monitor           bool // run the overlap monitor
 	KeepLog           bool // keep the full call log (default true via New)
+	PartialMask       bool // the attribute mask of everything but directories comes back without Mode (the File contract allows partial masks; the attributes themselves are filled in)
 }
 
 // FS is one instrumented file system instance.
@@ -833,7 +834,11 @@ func (h *Handle) WalkGetAttr(names []string) ([]p9.QID, p9.File, p9.AttrMask, p9
 		}
 		return nil, nil, p9.AttrMask{}, p9.Attr{}, h.fs.errOf(errno)
 	}
-	return qids, nh, p9.AttrMaskAll, attr, nil
+	mask := p9.AttrMaskAll
+	if h.fs.opts.PartialMask && !attr.Mode.IsDir() {
+		mask.Mode = false
+	}
+	return qids, nh, mask, attr, nil
 }
 
 // markClosedInternal retires a handle that was never handed to the server.
@@ -875,7 +880,11 @@ func (h *Handle) GetAttr(req p9.AttrMask) (p9.QID, p9.AttrMask, p9.Attr, error) 
 	if e != 0 {
 		return p9.QID{}, p9.AttrMask{}, p9.Attr{}, h.fs.errOf(e)
 	}
-	return q, p9.AttrMaskAll, a, nil
+	mask := p9.AttrMaskAll
+	if h.fs.opts.PartialMask && !a.Mode.IsDir() {
+		mask.Mode = false
+	}
+	return q, mask, a, nil
 }
 
 // SetAttr implements p9.File.
